@@ -202,6 +202,8 @@ class Exec:
         self._alloc_starts = [a for a, n in snap.allocs]
         self.branch_timeout = 30000
         self.ext_prefix = []
+        self.max_paths = 1500
+        self.time_budget = 150
 
     # ---------------- memory
     def _page(self, st, addr, create):
@@ -542,9 +544,11 @@ class Exec:
         st.frames.append(fr)
     def run(self, st):
         """run all paths; yields finished states"""
-        work = [st]
+        work = [st]; done = 0; t0 = time.time()
         while work:
-            s = work.pop()
+            s = work.pop(); done += 1
+            if time.time() - t0 > self.time_budget: raise Unsupported('time budget of %ds for one symbolic run exceeded after %d paths' % (self.time_budget, done))
+            if done > self.max_paths or len(work) > self.max_paths: raise Unsupported('path budget of %d exceeded (a branch on symbolic data forks per cell?)' % self.max_paths)
             try:
                 self.run_path(s, work)
             except PathEnd as e:
